@@ -2,8 +2,9 @@
 CFG = {'assumptions': ['f64 inputs cross the boundary as bit patterns and are decoded to exact rationals; Rust f64 '
                  'ops are IEEE-754',
                  "coordinates are finite (NaN != NaN makes 'closed' unsatisfiable)"],
+ 'translator': True,
  'count': {'quick': 20000, 'thorough': 1000000},
- 'lean_files': ['GeoModel/PolygonSM.lean', 'GeoModel/Traverse.lean', 'GeoModel/Ops/C18.lean'],
+ 'lean_files': ['GeoModel/Gen/RectGen.lean', 'GeoModel/PolygonSM.lean', 'GeoModel/Traverse.lean', 'GeoModel/Ops/C18.lean'],
  'rule': 'random API histories (1-13 ops over '
          'Polygon::new/exterior_mut/try_exterior_mut/interiors_mut/try_interiors_mut/interiors_push with '
          'edit-program closures and independent Ok/Err exits), Rect new/set_min/set_max histories incl. '
